@@ -720,6 +720,15 @@ func cmdCrash(fs *flag.FlagSet, args []string) {
 				// C05: a crash in the middle of freeing loses no space: once the number of every
 				// half-freed object has been reused, nothing is half-freed any more
 				for _, hf := range halfFreed(rs.srv.VerifFsState()) {
+					// C09: a creation that FAILS after having been handed the half-freed number (the
+					// name is too long for a directory slot) consumes no inode, now or after a restart
+					rs.pokeInodeAlloc(hf - 1)
+					ifree0 := rs.srv.VerifFsState().Ialloc.NumFree()
+					rs.opCreate("create", rs.root(), strings.Repeat("L", 200), 0, nil)
+					rs.waitIdle()
+					if ifree1 := rs.srv.VerifFsState().Ialloc.NumFree(); !rs.dead && ifree1 != ifree0 {
+						emit("# ORACLE C09 failed-create-consumed-an-inode %s: on the recovered server inode %d is free but still being truncated; a CREATE with a 200-byte name is handed that number first and fails, and the allocator counts %d free inodes afterwards, %d before", where, hf, ifree1, ifree0)
+					}
 					rs.pokeInodeAlloc(hf - 1)
 					rs.mk("create", rs.root(), fmt.Sprintf("reuse-%d", hf))
 				}
